@@ -26,8 +26,29 @@ MANIFEST = {
 REQUIRED = ["sf_size", "sf_def_any_buffer", "sf_def", "sf_zero_lag_is_buffer", "sf_zero_lag", "sf_zero_lag_fails_on_empty",
             "sf_ramp", "sf_quadratic", "msd_piston", "msd_nonneg",
             "tps_size", "tps_def", "tps_pinned_quartic", "tps_quadratic_fails_pinned", "tps_batch", "tps_quadratic", "tps_parseval_full", "tps_parseval", "tps_parseval_even",
-            "tps_parseval_odd", "tps_sinusoid", "tps_sinusoid_peak", "tps_axis_size", "tps_axis", "fftfreq_eq"]
+            "tps_parseval_odd", "tps_sinusoid", "tps_sinusoid_peak", "tps_axis_size", "tps_axis", "fftfreq_eq",
+            "sf_def_overlap", "sf_no_overlap"]
 POISON = 7.0
+# frame counts with a prime factor >= 13 (not 11-smooth: an FFT that pads to a "fast" length changes them) next to smooth ones
+ROUGH_N = [13, 17, 19, 26, 34, 101, 1001, 23, 39, 58]
+_VIA = [0]
+
+
+def _entry(name):
+    """the function under its module name, its sub-package re-export and its package-level re-export, in turn"""
+    import aotools
+    import aotools.turbulence
+    from aotools.turbulence import slopecovariance as SC, temporal_ps as TP
+    _VIA[0] += 1
+    home = SC if name == "calculate_structure_function" else TP
+    return getattr((home, aotools.turbulence, aotools)[_VIA[0] % 3], name)
+
+
+def ulps(a, b):
+    """distance of two finite floats in units of the last place of the larger one"""
+    if a == b:
+        return 0.0
+    return abs(a - b) / math.ulp(max(abs(a), abs(b)))
 
 
 # ------------------------------------------------------------------------------------------------ helpers
@@ -46,7 +67,6 @@ def poison_heap(xm, value):
 
 
 def call_sf(phase, nb, step, poison=POISON):
-    from aotools.turbulence import slopecovariance as SC
     kw = {}
     if nb is not None:
         kw["nbOfPoint"] = nb
@@ -54,7 +74,7 @@ def call_sf(phase, nb, step, poison=POISON):
         kw["step"] = step
     poison_heap(xm_expected(phase.shape[1], nb, step), poison)
     with numpy.errstate(all="ignore"):
-        return SC.calculate_structure_function(phase, **kw)
+        return _entry("calculate_structure_function")(phase, **kw)
 
 
 def exact_lag_mean(rows, i):
@@ -87,6 +107,11 @@ def check_sf(phase, nb, step, exact):
     n0, n1 = phase.shape
     if sf.ndim != 1:
         return out + [("sf:shape", "result has shape %s, not 1-D" % (sf.shape,))]
+    want_len = xm_expected(n1, nb, step)
+    if len(sf) != want_len:
+        out.append(("sf:length", "result has %d entries, documented size int(min(nbOfPoint, shape[1]/step - 1)) = %d (shape %s "
+                    "nbOfPoint=%r step=%r)" % (len(sf), want_len, phase.shape, nb, step)))
+    f32 = phase.dtype == numpy.float32
     if len(sf) > 0 and not (sf[0] == 0.0):
         out.append(("sf:lag0-nonzero", "sf[0]=%r (must be 0) for phase shape %s nbOfPoint=%r step=%r"
                     % (float(sf[0]), phase.shape, nb, step)))
@@ -98,7 +123,9 @@ def check_sf(phase, nb, step, exact):
             continue
         ref = exact_lag_mean(rows, i)
         got = float(sf[j])
-        ok = (got == float(ref)) if exact else rel_close(got, float(ref), 1e-12)
+        # exact inputs: the correctly rounded value up to 2 ulp (the sum is exact, the division may be done as a multiplication
+        # by the reciprocal); float32 inputs are reduced in single precision by NumPy: 2e-5 (observed <= 1.9e-7 over 12 seeds)
+        ok = rel_close(got, float(ref), 2e-5) if f32 else ((ulps(got, float(ref)) <= 2) if exact else rel_close(got, float(ref), 1e-12))
         if not ok:
             out.append(("sf:def:lag>=1", "sf[%d]=%r but mean((phase[:-%d]-phase[%d:])**2)=%r (shape %s nbOfPoint=%r step=%r)"
                         % (j, got, i, i, float(ref), phase.shape, nb, step)))
@@ -107,8 +134,8 @@ def check_sf(phase, nb, step, exact):
     sf2 = numpy.asarray(call_sf(phase, nb, step, POISON + 100.0))
     # (bit-identical where the arithmetic is exact; NumPy's reductions may differ in the last bits between two calls
     #  on Gaussian data because the temporaries land at differently aligned addresses)
-    same = sf2.shape == sf.shape and (numpy.array_equal(sf, sf2, equal_nan=True) if exact else
-                                      all(rel_close(float(p), float(q), 1e-12) for p, q in zip(sf, sf2)))
+    same = sf2.shape == sf.shape and (numpy.array_equal(sf, sf2, equal_nan=True) if (exact and not f32) else
+                                      all(rel_close(float(p), float(q), 1e-5 if f32 else 1e-12) for p, q in zip(sf, sf2)))
     if not same:
         out.append(("sf:not-repeatable", "two identical calls returned different results (shape %s nbOfPoint=%r step=%r): %r vs %r"
                     % (phase.shape, nb, step, sf.tolist()[:4], sf2.tolist()[:4])))
@@ -127,8 +154,11 @@ def check_sf_quadratic(phase, nb, step, c):
     return []
 
 
-def check_sf_ramp(n0, n1, a, offsets, nb, step):
-    phase = a * numpy.arange(n0, dtype=float)[:, None] + numpy.asarray(offsets, dtype=float)[None, :]
+def check_sf_ramp(n0, n1, a, offsets, nb, step, piston=0.0):
+    """ramp of dyadic slope a along axis 0 plus dyadic column offsets plus a (large, integer) piston: every phase value, every
+    difference, every square and every partial sum is exact in binary64, so a^2 (j step)^2 must come back to 2 ulp — also when the
+    piston is 1e8 (an estimator that expands the square, mean(p^2 + q^2 - 2pq), cancels catastrophically there)"""
+    phase = (a * numpy.arange(n0, dtype=float)[:, None] + numpy.asarray(offsets, dtype=float)[None, :]) + float(piston)
     sf = numpy.asarray(call_sf(phase, nb, step))
     st = 1 if step is None else int(step)
     for j in range(len(sf)):
@@ -136,10 +166,54 @@ def check_sf_ramp(n0, n1, a, offsets, nb, step):
         if i >= n0:
             continue
         want = a * a * i * i
-        if not (float(sf[j]) == want):          # a, offsets dyadic: exact
-            return [("sf:ramp", "ramp of slope %r, shape (%d,%d), nbOfPoint=%r step=%r: sf[%d]=%r, expected a^2 (j step)^2=%r"
-                     % (a, n0, n1, nb, step, j, float(sf[j]), want))]
+        if not (float(sf[j]) == float(sf[j]) and ulps(float(sf[j]), want) <= 2):          # a, offsets, piston dyadic: exact
+            return [("sf:ramp" + (":piston" if piston else ""),
+                     "ramp of slope %r%s, shape (%d,%d), nbOfPoint=%r step=%r: sf[%d]=%r, expected a^2 (j step)^2=%r"
+                     % (a, " on a piston of %r" % piston if piston else "", n0, n1, nb, step, j, float(sf[j]), want))]
     return []
+
+
+def check_sf_piston(phase, nb, step, piston, exact):
+    """adding a constant to the phase does not change any difference: sf(phase + c) = sf(phase).  `exact`: phase and
+    phase + c are integer-valued (every operation exact: 2 ulp); otherwise phase + c is rounded to ~|c|*1e-16, which moves
+    the differences by that much: tolerance 1e-7 relative to the largest entry for |c| <= 1e6 (observed <= 1.4e-11 over 12 seeds)"""
+    sf1 = numpy.asarray(call_sf(phase, nb, step))
+    sf2 = numpy.asarray(call_sf(phase + piston, nb, step))
+    if sf1.shape != sf2.shape:
+        return [("sf:piston", "shape changes when a constant is added to the phase")]
+    fin = numpy.isfinite(sf1)
+    scale = float(numpy.abs(sf1[fin]).max()) if fin.any() else 0.0
+    for j in range(len(sf1)):
+        p, q = float(sf1[j]), float(sf2[j])
+        if p != p and q != q:
+            continue
+        ok = (p == p and q == q) and ((ulps(p, q) <= 2) if exact else abs(p - q) <= 1e-7 * scale)
+        if not ok:
+            return [("sf:piston", "sf(phase + %r)[%d]=%r but sf(phase)[%d]=%r (shape %s nbOfPoint=%r step=%r)"
+                     % (piston, j, q, j, p, phase.shape, nb, step))]
+    return []
+
+
+def check_sf_screens(cfg, seeds):
+    """'applied to generated screens it follows the analytic structure function': the estimator averaged over len(seeds) seeded
+    ft_sh_phase_screen realisations against structure_function_vk(j*step*delta, r0, L0) at a few lags, within +-25 % (the only
+    place where the estimator's axis / pixel-scale convention meets the analytic curve).  Returns (fails, ratios)."""
+    import aotools
+    N, delta, r0, L0, step, nb, lags = cfg
+    acc = 0.0
+    for sd in seeds:
+        scr = aotools.ft_sh_phase_screen(r0, N, delta, L0, 0.01, seed=sd)
+        acc = acc + numpy.asarray(call_sf(scr, nb, step))
+    sf = acc / len(seeds)
+    out, ratios = [], []
+    for j in lags:
+        th = float(aotools.structure_function_vk(j * step * delta, r0, L0))
+        ratios.append(float(sf[j]) / th)
+        if not abs(ratios[-1] - 1.0) <= 0.25:
+            out.append(("sf:screens", "mean over %d ft_sh_phase_screen(r0=%r, N=%d, delta=%r, L0=%r) screens: sf[%d] = %r (lag %d px = "
+                        "%.3g m) but structure_function_vk gives %r (ratio %.3f, allowed 1 +- 0.25)"
+                        % (len(seeds), r0, N, delta, L0, j, float(sf[j]), j * step, j * step * delta, th, ratios[-1])))
+    return out, ratios
 
 
 def naive_tps(x):
@@ -162,9 +236,8 @@ def dft_bin(x, k):
 
 
 def call_tps(x):
-    from aotools.turbulence import temporal_ps as TP
     with numpy.errstate(all="ignore"):
-        m, e = TP.calc_slope_temporalps(x)
+        m, e = _entry("calc_slope_temporalps")(x)
     return numpy.asarray(m), numpy.asarray(e)
 
 
@@ -176,7 +249,8 @@ def check_tps(x, c=2.0):
         out.append(("tps:mutates-input", "calc_slope_temporalps changed its argument"))
     x = before                         # every reference below is computed from the pre-call contents
     m_again, _ = call_tps(x.copy())
-    if m_again.shape != m.shape or not numpy.all(numpy.abs(m - m_again) <= 1e-12 * float(numpy.abs(m).max() if m.size else 0.0)):
+    if m_again.shape != m.shape or not numpy.all(numpy.abs(m - m_again) <= (1e-4 if x.dtype == numpy.float32 else 1e-12)
+                                                   * float(numpy.abs(m).max() if m.size else 0.0)):
         out.append(("tps:not-repeatable", "two identical calls of calc_slope_temporalps returned different spectra (input shape %s)" % (x.shape,)))
     n, ns = x.shape[-2], x.shape[-1]
     want_shape = x.shape[:-2] + (n // 2,)
@@ -186,13 +260,15 @@ def check_tps(x, c=2.0):
         return out
     ref, _ = naive_tps(x)
     scale = float(numpy.abs(ref).max()) if ref.size else 0.0
-    if not numpy.all(numpy.abs(m - ref) <= 1e-9 * scale):
+    # float32 slopes are transformed in single precision by numpy.fft: 1e-4 (observed <= 2.6e-7 over 12 seeds); else 1e-9
+    T9, T12 = (1e-4, 1e-4) if x.dtype == numpy.float32 else (1e-9, 1e-12)
+    if not numpy.all(numpy.abs(m - ref) <= T9 * scale):
         idx = numpy.unravel_index(numpy.argmax(numpy.abs(m - ref)), m.shape)
         out.append(("tps:def", "mean_tps%s=%r but mean over sub-apertures of |DFT|^2 is %r (input shape %s)"
                     % (list(idx), float(m[idx]), float(ref[idx]), x.shape)))
     # quadratic in amplitude
     m2, _ = call_tps(c * x)
-    if not numpy.all(numpy.abs(m2 - c * c * m) <= 1e-12 * max(c * c * float(numpy.abs(m).max()), 0.0)):
+    if not numpy.all(numpy.abs(m2 - c * c * m) <= T12 * max(c * c * float(numpy.abs(m).max()), 0.0)):
         idx = numpy.unravel_index(numpy.argmax(numpy.abs(m2 - c * c * m)), m.shape)
         out.append(("tps:quadratic", "tps(c*x)%s=%r but c^2*tps(x)=%r (c=%r, input shape %s)"
                     % (list(idx), float(m2[idx]), c * c * float(m[idx]), c, x.shape)))
@@ -204,14 +280,14 @@ def check_tps(x, c=2.0):
     lhs = 2.0 * m.sum(-1) - m[..., 0] + dropped
     rhs = n * (x.astype(float) ** 2).sum(-2).mean(-1)
     sc = float(numpy.abs(rhs).max())
-    if not numpy.all(numpy.abs(lhs - rhs) <= 1e-9 * sc):
+    if not numpy.all(numpy.abs(lhs - rhs) <= T9 * sc):
         out.append(("tps:parseval", "2*sum(P)-P[0]+dropped bins = %r but n*mean_s(sum_t x^2) = %r (input shape %s)"
                     % (numpy.ravel(lhs)[0].item(), numpy.ravel(rhs)[0].item(), x.shape)))
     # leading axes are independent
     if x.ndim > 2:
         idx = tuple(0 if s == 1 else s - 1 for s in x.shape[:-2])
         mb, _ = call_tps(numpy.ascontiguousarray(x[idx]))
-        if mb.shape != m[idx].shape or not numpy.all(numpy.abs(mb - m[idx]) <= 1e-12 * scale):
+        if mb.shape != m[idx].shape or not numpy.all(numpy.abs(mb - m[idx]) <= T12 * scale):
             out.append(("tps:batch", "tps(x)[%s] differs from tps(x[%s]) (input shape %s)" % (idx, idx, x.shape)))
     return out
 
@@ -240,8 +316,7 @@ def check_tps_sinusoid(lead, n, ns, k0, amps, phis):
 
 
 def check_axis(fr, n):
-    from aotools.turbulence import temporal_ps as TP
-    ax = numpy.asarray(TP.get_tps_time_axis(fr, n))
+    ax = numpy.asarray(_entry("get_tps_time_axis")(fr, n))
     if ax.shape != (n // 2,):
         return [("tps:axis", "get_tps_time_axis(%r,%d) has shape %s, expected (%d,)" % (fr, n, ax.shape, n // 2))]
     for k in range(n // 2):
@@ -253,7 +328,7 @@ def check_axis(fr, n):
 
 # ------------------------------------------------------------------------------------------------ generators
 def gen_phase(rng, big):
-    kind = rng.choice(["int", "int", "dyadic", "float", "intdtype"])
+    kind = rng.choice(["int", "int", "dyadic", "float", "intdtype", "float32", "int+1e8", "float+1e6"])
     hi = 40 if big else 14
     n0, n1 = rng.randint(1, hi), rng.randint(1, hi)
     if rng.random() < 0.3:
@@ -264,20 +339,31 @@ def gen_phase(rng, big):
         a = numpy.array([[rng.randint(-9, 9) for _ in range(n1)] for _ in range(n0)], dtype=numpy.int64).reshape(n0, n1)
     elif kind == "dyadic":
         a = numpy.array([[common.dyadic(rng, -8, 8) for _ in range(n1)] for _ in range(n0)]).reshape(n0, n1)
+    elif kind == "int+1e8":       # a large piston under integer structure: every operation of the definition stays exact
+        a = numpy.array([[float(rng.randint(-9, 9)) for _ in range(n1)] for _ in range(n0)]).reshape(n0, n1) + 1e8
+    elif kind == "float32":
+        a = numpy.array([[rng.gauss(0, 3) for _ in range(n1)] for _ in range(n0)], dtype=numpy.float32).reshape(n0, n1)
+    elif kind == "float+1e6":     # Gaussian structure on a large mean (unwrapped phase far from zero)
+        a = numpy.array([[rng.gauss(0, 3) for _ in range(n1)] for _ in range(n0)]).reshape(n0, n1) + 1e6
     else:
         a = numpy.array([[rng.gauss(0, 3) for _ in range(n1)] for _ in range(n0)]).reshape(n0, n1)
     if rng.random() < 0.2:                 # the same values as a non-contiguous view (transposed / reversed storage)
         a = numpy.asfortranarray(a) if rng.random() < 0.5 else numpy.ascontiguousarray(a[::-1, ::-1])[::-1, ::-1]
     nb = None if rng.random() < 0.4 else rng.randint(0, n1 + 2)
+    if nb is not None and rng.random() < 0.15:
+        nb = nb + rng.choice([0.0, 0.25, 0.5])          # a float nbOfPoint (the default, shape[1]/4, is one)
     r = rng.random()
     step = None if r < 0.35 else (float(rng.randint(1, 3)) if r < 0.45 else rng.randint(1, max(1, min(5, n1))))
     return kind, a, nb, step
 
 
-def gen_slopes(rng, big):
-    kind = rng.choice(["int", "float", "intdtype"])
+def gen_slopes(rng, big, n=None):
+    kind = rng.choice(["int", "float", "intdtype", "float32"])
     lead = rng.choice([(), (), (rng.randint(1, 3),), (rng.randint(1, 2), rng.randint(1, 3))])
-    n = rng.randint(1, 48 if big else 20)
+    if n is None:
+        n = rng.randint(1, 48 if big else 20)
+    elif n > 200:
+        lead = ()
     ns = rng.randint(1, 6)
     shape = tuple(lead) + (n, ns)
     size = int(numpy.prod(shape))
@@ -285,6 +371,8 @@ def gen_slopes(rng, big):
         x = numpy.array([float(rng.randint(-9, 9)) for _ in range(size)]).reshape(shape)
     elif kind == "intdtype":
         x = numpy.array([rng.randint(-9, 9) for _ in range(size)], dtype=numpy.int64).reshape(shape)
+    elif kind == "float32":
+        x = numpy.array([rng.gauss(0, 2) for _ in range(size)], dtype=numpy.float32).reshape(shape)
     else:
         x = numpy.array([rng.gauss(0, 2) for _ in range(size)]).reshape(shape)
     if rng.random() < 0.2:                 # non-contiguous view of the same values
@@ -295,7 +383,8 @@ def gen_slopes(rng, big):
 # ------------------------------------------------------------------------------------------------ correspondence
 def sf_line(op, a, nb, step, extra=()):
     st = "-" if step is None else str(int(step))
-    return "C19 %s %d %d %s %s %s" % (op, a.shape[0], a.shape[1], "-" if nb is None else nb, st,
+    # a float nbOfPoint >= 0 enters only through int(min(nbOfPoint, ...)); truncation commutes with min, the model takes int(nb)
+    return "C19 %s %d %d %s %s %s" % (op, a.shape[0], a.shape[1], "-" if nb is None else int(nb), st,
                                       " ".join([common.f2h(v) for v in extra] + [common.f2h(v) for v in a.ravel()]))
 
 
@@ -339,7 +428,7 @@ def correspondence(chk, n_sf, n_tps, n_axis, xm_hi, nmax=16):
         if r is None:
             continue
         impl = [float(v) for v in numpy.asarray(r)]
-        lines.append("C19 sfu %d %d %s %s %d %s" % (a.shape[0], a.shape[1], "-" if nb is None else nb,
+        lines.append("C19 sfu %d %d %s %s %d %s" % (a.shape[0], a.shape[1], "-" if nb is None else int(nb),
                                                     "-" if step is None else str(int(step)), xm,
                                                     " ".join([common.f2h(v) for v in u] + [common.f2h(v) for v in a.astype(float).ravel()])))
         expect.append(("sfu", kind, (u[:1] + impl[1:]), {"shape": a.shape, "nb": nb, "step": step}))
@@ -406,9 +495,10 @@ def correspondence(chk, n_sf, n_tps, n_axis, xm_hi, nmax=16):
             chk.broke("correspondence", "driver answered %r to %s" % (a[:80], line[:120]), line)
             continue
         if op in ("sf", "sfu"):
-            exact = kind in ("int", "intdtype", "dyadic")
+            exact = kind in ("int", "intdtype", "dyadic", "int+1e8")
             ok = len(vals) == len(impl) and all(
-                (common.f2h(v) == common.f2h(w) or (v != v and w != w) or (v == 0 and w == 0)) if exact else common.close(v, w, 1e-12)
+                (common.f2h(v) == common.f2h(w) or (v != v and w != w) or (v == 0 and w == 0)) if exact
+                else common.close(v, w, 1e-5 if kind == "float32" else 1e-12)
                 for v, w in zip(vals, impl))
             if any(v != v for v in impl):
                 chk.count("corr:sf:has-empty-overlap-lag(NaN)")
@@ -418,7 +508,7 @@ def correspondence(chk, n_sf, n_tps, n_axis, xm_hi, nmax=16):
             mi, ei = impl
             nm = len(mi)
             scale = max([abs(v) for v in mi] + [0.0])
-            if len(vals) != 2 * nm or not all(abs(v - w) <= 1e-9 * scale for v, w in zip(vals[:nm], mi)):
+            if len(vals) != 2 * nm or not all(abs(v - w) <= (1e-4 if kind == "float32" else 1e-9) * scale for v, w in zip(vals[:nm], mi)):
                 chk.broke("correspondence", "C19 tps (%s): model %r, real code %r, shape %s" % (kind, vals[:4], mi[:4], info["shape"]), line)
             elif not all(abs(v - w) <= 1e-7 * scale for v, w in zip(vals[nm:], ei)):
                 err_mismatch += 1     # the error estimate is not part of the property: recorded, not a verdict
@@ -447,28 +537,61 @@ def oracle(chk, n_sf, n_tps, big):
     for it in range(n_sf):
         chk.oracle_cases += 1
         kind, a, nb, step = gen_phase(rng, big)
-        exact = kind != "float"
+        exact = kind not in ("float", "float32", "float+1e6")
         chk.count("sf:%s" % kind)
+        if isinstance(nb, float):
+            chk.count("sf:float-nbOfPoint")
         chk.count("sf:rows<cols" if a.shape[0] < a.shape[1] else "sf:rows>=cols")
         chk.count("sf:xm=%s" % min(xm_expected(a.shape[1], nb, step), 5))
         rp = {"fn": "sf", "phase": a.tolist(), "dtype": str(a.dtype), "nb": nb, "step": step, "exact": exact}
         chk.case(("sf", it, a.shape, nb, step, kind), sample={"shape": a.shape, "nb": nb, "step": step, "kind": kind} if it < 2 else None)
         report(check_sf, (a, nb, step, exact), rp)
-        c = rng.choice([2.0, -0.5, 1.5, 3.0])
+        # (on a large offset c*phase is exact only for powers of two; the rounding of 1.5*phase would otherwise be compared)
+        c = rng.choice([2.0, -0.5, 4.0] if "+1e" in kind else [2.0, -0.5, 1.5, 3.0])
         report(check_sf_quadratic, (a.astype(float), nb, step, c), dict(rp, fn="sf_quadratic", c=c))
         a_s = common.dyadic(rng, -4, 4, 3)
         off = [common.dyadic(rng, -4, 4, 3) for _ in range(a.shape[1])]
-        report(check_sf_ramp, (a.shape[0], a.shape[1], a_s, off, nb, step),
-               {"fn": "sf_ramp", "n0": a.shape[0], "n1": a.shape[1], "a": a_s, "offsets": off, "nb": nb, "step": step})
+        piston = (0.0, 0.0, 1e8, float(rng.randint(-10 ** 9, 10 ** 9)))[it % 4]
+        report(check_sf_ramp, (a.shape[0], a.shape[1], a_s, off, nb, step, piston),
+               {"fn": "sf_ramp", "n0": a.shape[0], "n1": a.shape[1], "a": a_s, "offsets": off, "nb": nb, "step": step, "piston": piston})
+        if kind in ("int", "intdtype", "float"):
+            pist = 1e8 if kind != "float" else 1e6
+            report(check_sf_piston, (a.astype(float), nb, step, pist, kind != "float"),
+                   dict(rp, fn="sf_piston", piston=pist, exact=kind != "float"))
+            chk.count("sf:piston-invariance")
+    # generated screens against the analytic von Karman structure function (one cheap sample per run)
+    cfg = rng.choice([(64, 0.1, 0.15, 20.0, 1, 13, (2, 4, 8)), (64, 0.05, 0.1, 10.0, 1, 13, (2, 4, 8)),
+                      (64, 0.1, 0.15, 5.0, 2, 7, (1, 2, 4)), (48, 0.1, 0.2, 30.0, 1, 10, (2, 4, 8))])
+    seeds = [rng.getrandbits(31) for _ in range(40)]
+    chk.oracle_cases += 1
+    chk.case(("sf-screens", cfg, seeds[0]))
+    chk.count("sf:screens")
+    try:
+        fails, ratios = check_sf_screens(cfg, seeds)
+    except Exception as ex:
+        fails, ratios = [("sf:screens:raises", "%s: %s" % (type(ex).__name__, str(ex)[:200]))], []
+    for key, what in fails:
+        chk.fail(key, what, {"fn": "sf_screens", "cfg": list(cfg), "seeds": seeds})
+    chk.notes.append("generated screens vs analytic structure function (N, delta, r0, L0, step, nbOfPoint, lags = %r, 40 screens): "
+                     "estimator / structure_function_vk = %s (allowed 1 +- 0.25)" % (cfg, ["%.3f" % r for r in ratios]))
+
     for it in range(n_tps):
         chk.oracle_cases += 1
-        kind, x = gen_slopes(rng, big)
+        # frame counts that are not 11-smooth (13, 17, 19, 26, 34, 101, 1001, ...) come first in every run
+        nforce = ROUGH_N[it] if it < len(ROUGH_N) else (rng.choice(ROUGH_N[:6] + ROUGH_N[7:]) if it % 5 == 0 else None)
+        kind, x = gen_slopes(rng, big, nforce)
+        if nforce:
+            chk.count("tps:n_frames-not-11-smooth")
         chk.count("tps:%s:rank%d" % (kind, x.ndim))
         chk.count("tps:n_frames-%s" % ("even" if x.shape[-2] % 2 == 0 else "odd"))
         c = rng.choice([2.0, -3.0, 0.5, 1.25])
         chk.case(("tps", it, x.shape, kind), sample={"shape": x.shape, "kind": kind} if it < 2 else None)
-        report(check_tps, (x, c), {"fn": "tps", "x": x.tolist(), "c": c})
+        report(check_tps, (x, c), {"fn": "tps", "x": x.tolist(), "c": c, "dtype": str(x.dtype)})
         n = rng.randint(4, 64 if big else 24)
+        if it < len(ROUGH_N):
+            n = ROUGH_N[it]
+        elif it % 5 == 1:
+            n = rng.choice(ROUGH_N[:6] + ROUGH_N[7:])
         k0 = rng.randint(1, n // 2 - 1)          # a returned bin: 0 < k0 < n//2
         ns = rng.randint(1, 4)
         amps = [rng.uniform(0.5, 3) for _ in range(ns)]
@@ -506,9 +629,13 @@ def _replay_eval(fn, r):
     elif fn == "sf_quadratic":
         fails = check_sf_quadratic(numpy.array(r["phase"], dtype=float), r["nb"], r["step"], r["c"])
     elif fn == "sf_ramp":
-        fails = check_sf_ramp(r["n0"], r["n1"], r["a"], r["offsets"], r["nb"], r["step"])
+        fails = check_sf_ramp(r["n0"], r["n1"], r["a"], r["offsets"], r["nb"], r["step"], r.get("piston", 0.0))
+    elif fn == "sf_piston":
+        fails = check_sf_piston(numpy.array(r["phase"], dtype=float), r["nb"], r["step"], r["piston"], r["exact"])
+    elif fn == "sf_screens":
+        fails = check_sf_screens(tuple(r["cfg"][:6]) + (tuple(r["cfg"][6]),), r["seeds"])[0]
     elif fn == "tps":
-        fails = check_tps(numpy.array(r["x"], dtype=float), r["c"])
+        fails = check_tps(numpy.array(r["x"], dtype=r.get("dtype", "float64")), r["c"])
     elif fn == "tps_sinusoid":
         fails = check_tps_sinusoid(tuple(r["lead"]), r["n"], r["ns"], r["k0"], r["amps"], r["phis"])
     elif fn == "axis":
@@ -523,16 +650,23 @@ def run(chk):
     chk.rule = ("correspondence: Lean model at Float vs real code - structure function bit-exact on integer/dyadic phases (1e-12 rel. on "
                 "Gaussian phases), output length exact, frequency axis bit-exact, spectra |impl-model| <= 1e-9*max|spectrum| (FFT vs "
                 "naive DFT); oracle on the real code with a poisoned heap: lag 0 == 0, lag j == exact rational mean squared difference, "
-                "ramp a^2 (j step)^2 exactly (dyadic a), quadratic scaling 1e-12, |DFT|^2 mean 1e-9, Parseval 1e-9, sinusoid bin, "
+                "ramp a^2 (j step)^2 to 2 ulp (dyadic a, pistons up to 1e9), piston invariance, documented output length, quadratic scaling 1e-12, |DFT|^2 mean 1e-9, Parseval 1e-9, sinusoid bin, "
                 "axis 1e-12, batch independence, no input mutation, repeatability; distinct = distinct generated inputs")
     chk.assumptions = [
         "numpy.fft.fft is modelled by the naive DFT sum (agreement checked numerically on every generated instance; n_frames <= 16 (quick) / 32 (thorough) in the driver)",
         "numpy.empty is modelled as an arbitrary initial buffer u; numpy.zeros as the all-zero buffer",
         "IEEE rounding and NumPy slicing/broadcast/axis semantics are exercised by the correspondence, not proved",
-        "clause 'applied to generated screens it follows the analytic structure function' is statistical: not carried by any theorem",
+        "clause 'applied to generated screens it follows the analytic structure function' is statistical: not carried by any "
+        "theorem; ONE oracle sample per run (40 seeded ft_sh_phase_screen screens, three lags, estimator / structure_function_vk "
+        "within 1 +- 0.25; observed 0.90 .. 1.10 over 48 batches of 40 screens)",
         "lags with j*step >= phase.shape[0] (no overlapping rows; possible because the code bounds lags by shape[1]) have no defined "
-        "mean: the code returns NaN there, the oracle skips them; sf_def states the formula (0/0 := 0 over the reals), sf_ramp assumes "
+        "mean: the code returns NaN there, the oracle skips them; sf_def has no overlap hypothesis and holds there only by 0/0 := 0 "
+        "over the reals — the meaningful statement is sf_def_overlap (hypotheses j*step < shape[0] and shape[1] > 0, division-free), "
+        "the empty case is sf_no_overlap (count of terms = 0, model value 0/0, nothing claimed about the code); sf_ramp assumes "
         "j*step < n0",
+        "exactness demands are 2 ulp, not bit equality (integer / dyadic phases, ramps, also on pistons up to 1e9: every operation "
+        "of the definition is exact there); float32 phases / slopes are reduced in single precision by NumPy: 2e-5 / 1e-4",
+        "a float nbOfPoint enters the model as int(nbOfPoint) (truncation commutes with min for non-negative values)",
         "output length: the float expression int(min(nbOfPoint, shape[1]/step - 1)) vs the model's natural-number sfXm is compared "
         "exhaustively for shape[1] <= 10 (quick) / 30 (thorough), not proved",
     ]
